@@ -10,6 +10,7 @@ import types
 
 from edgegraph.structure import DirectedEdge, Link, UnDirectedEdge, Universe, Vertex
 from edgegraph.structure.universe import UniverseLaws
+from edgegraph.traversal import helpers
 
 from egverif import histories, oracles
 from egverif.props import c01
@@ -35,7 +36,7 @@ FLOOR_KEYS = ["op:set_laws:u_laws_None:new_free", "op:set_laws:u_laws_None:new_b
 
 
 def floors(ctx):
-    f = {"evaluations": 20000 if ctx.tier == "quick" else 200000, "histories": 1000, "rule_attribute_checks": 100, "whitelists_passed_as_proxy": 10, "whitelists_with_rows_of_other_mapping_types": 10, "bursts": 500,
+    f = {"evaluations": 20000 if ctx.tier == "quick" else 200000, "histories": 1000, "rule_attribute_checks": 100, "whitelists_passed_as_proxy": 10, "whitelists_with_rows_of_other_mapping_types": 10, "bindings_on_universes_with_non_vertex_members": 40, "bursts": 500,
          "law_sets_built_with_positional_arguments": 100}
     for k in FLOOR_KEYS:
         f[k] = 1
@@ -155,17 +156,75 @@ def rule_attributes(ctx, rng):
         ctx.nontrivial(("attrs", n, str(vals), str(expect_wl)))
 
 
+def probe_non_vertex_members(ctx):
+    """
+    Universes whose members include objects that are not vertices (a link and a law set filed with add_vertex - the
+    class accepts any BaseObject), with the program-wide caching switch off and on: every route of (re)binding a law
+    set succeeds and leaves the binding mutual.  The members play no part in the binding.
+    """
+    from edgegraph.structure.base import BaseObject
+
+    routes = {
+        "u.laws = L2": lambda u, u2, l, l2: setattr(u, "laws", l2),
+        "L.applies_to = u2": lambda u, u2, l, l2: setattr(l, "applies_to", u2),
+        "u2.laws = L": lambda u, u2, l, l2: setattr(u2, "laws", l),
+        "Universe(laws=L)": lambda u, u2, l, l2: Universe(laws=l),
+        "u.laws = None": lambda u, u2, l, l2: setattr(u, "laws", None),
+        "L.applies_to = None": lambda u, u2, l, l2: setattr(l, "applies_to", None),
+        "L2.applies_to = u": lambda u, u2, l, l2: setattr(l2, "applies_to", u),
+    }
+    for cache in (False, True):
+        for label, act in routes.items():
+            for members in ("link", "laws", "bare", "link+vertex"):
+                Vertex.NEIGHBOR_CACHING = cache
+                try:
+                    a, b = Vertex(), Vertex()
+                    e = DirectedEdge(a, b)
+                    u = Universe(vertices=[a] if "vertex" in members else [])
+                    extra = e if "link" in members else UniverseLaws() if members == "laws" else BaseObject()
+                    if oracles.outcome(u.add_vertex, extra)[0] != "ok":
+                        ctx.count("non_vertex_member_refused")
+                        continue
+                    for x in (a, b):
+                        oracles.outcome(helpers.neighbors, x)
+                    l, u2, l2 = u.laws, Universe(), UniverseLaws()
+                    pool_u, pool_l = [u, u2], [l, l2, u2.laws]
+                    res = oracles.outcome(act, u, u2, l, l2)
+                    if res[0] == "ok" and isinstance(res[1], Universe):
+                        pool_u.append(res[1])
+                    ctx.evaluated()
+                    ctx.count("bindings_on_universes_with_non_vertex_members")
+                    ctx.nontrivial(("nvm", cache, label, members))
+                    case = {"non_vertex_members": True}
+                    if res[0] != "ok":
+                        ctx.violation(f"assignment_raised:{res[1].__name__}:universe_with_non_vertex_member",
+                                      f"{label} raised {res[1].__name__} (caching={cache}; the universe holds a {type(extra).__name__})", case)
+                        return
+                    for uu in pool_u:
+                        for ll in [x for x in pool_l if x is not None] + [uu.laws]:
+                            if ll is not None and ((uu.laws is ll) != (ll.applies_to is uu)):
+                                ctx.violation("binding_not_mutual:universe_with_non_vertex_member",
+                                              f"after {label} (caching={cache}): universe.laws is L = {uu.laws is ll} but "
+                                              f"L.applies_to is universe = {ll.applies_to is uu}", case)
+                                return
+                finally:
+                    Vertex.NEIGHBOR_CACHING = False
+
+
 def run(ctx):
     quick = ctx.tier == "quick"
     c01.run(ctx, profile="C19", checks=CHECKS, strict=False, depth=3 if quick else 4,
             nrand=2000 if quick else 8000, nontrivial=nontrivial_ops)
     rule_attributes(ctx, random.Random(ctx.seed + 19))
+    probe_non_vertex_members(ctx)
     ctx.assumptions[:] = ["law sets are constructed without applies_to (the property lists assignments and universe "
                           "constructions only)", "bijection evaluated at client-call boundaries over everything reachable"]
 
 
 def replay(ctx, case):
-    if case.get("rule_attrs"):
+    if case.get("non_vertex_members"):
+        probe_non_vertex_members(ctx)
+    elif case.get("rule_attrs"):
         rule_attributes(ctx, random.Random(ctx.seed + 19))
     else:
         eng = histories.replay(case["ops"], CHECKS, False)
